@@ -77,12 +77,31 @@ func c17WayNodes(s string) (osm.WayNodes, bool) {
 	return ns, true
 }
 
+// the timestamp field of an op: 0 = none (zero time), 1 = an ordinary stamp, 2 = the epoch second itself,
+// 3 = before the epoch, 4 = the last second RFC 3339 can write. Any stamp but the zero time is metadata.
+func c17TsClass(r *Rng) int {
+	if r.Chance(50) {
+		return 0
+	}
+	if r.Chance(15) {
+		return 2 + r.Intn(3)
+	}
+	return 1
+}
+
 func c17Meta(ver, cs, ts string) (int, osm.ChangesetID, time.Time) {
 	v, _ := strconv.Atoi(ver)
 	c, _ := strconv.ParseInt(cs, 10, 64)
 	var t time.Time
-	if ts == "1" {
+	switch ts {
+	case "1":
 		t = time.Unix(1500000000, 0).UTC()
+	case "2":
+		t = time.Unix(0, 0).UTC()
+	case "3":
+		t = time.Date(1969, 12, 31, 23, 59, 59, 0, time.UTC)
+	case "4":
+		t = time.Date(9999, 12, 31, 23, 59, 59, 0, time.UTC)
 	}
 	return v, osm.ChangesetID(c), t
 }
@@ -461,6 +480,40 @@ func c17Oracle(c *c17Case, fs []c17Feat) *Violation {
 		if f.hasMeta != !c.opts[1] {
 			return &Violation{Signature: "nometa-option", Text: fmt.Sprintf("feature %s: meta present=%v with NoMeta=%v", k, f.hasMeta, c.opts[1])}
 		}
+		if f.hasMeta && !(f.kind == "way" && outerOf[f.id] > 0) {
+			// the element's timestamp is metadata whenever it has one - the epoch second and earlier included
+			var ts time.Time
+			found := false
+			switch f.kind {
+			case "node":
+				for _, n := range c.o.Nodes {
+					if int64(n.ID) == int64(f.id) {
+						ts, found = n.Timestamp, true
+					}
+				}
+			case "way":
+				for _, w := range c.o.Ways {
+					if int64(w.ID) == int64(f.id) {
+						ts, found = w.Timestamp, true
+					}
+				}
+			case "relation":
+				for _, r := range c.o.Relations {
+					if int64(r.ID) == int64(f.id) {
+						ts, found = r.Timestamp, true
+					}
+				}
+			}
+			hasTS := false
+			for _, m := range f.meta {
+				if m == "timestamp" {
+					hasTS = true
+				}
+			}
+			if found && hasTS != !ts.IsZero() {
+				return &Violation{Signature: "meta-timestamp", Text: fmt.Sprintf("feature %s: meta.timestamp present=%v, the element's timestamp is %s", k, hasTS, ts.Format(time.RFC3339))}
+			}
+		}
 		if f.hasRels != !c.opts[2] {
 			return &Violation{Signature: "norelations-option", Text: fmt.Sprintf("feature %s: relations present=%v with NoRelationMembership=%v", k, f.hasRels, c.opts[2])}
 		}
@@ -803,7 +856,7 @@ func c17GenData(r *Rng) (nodes, ways, rels []string) {
 				tags += "," + []string{"source=x", "ref=1", "tiger:tlid=5"}[r.Intn(3)]
 			}
 		}
-		nodes = append(nodes, fmt.Sprintf("%d~%d~%d~%d~%d~%d~%s", i, lon, lat, ver, r.Intn(3), r.Intn(2), tags))
+		nodes = append(nodes, fmt.Sprintf("%d~%d~%d~%d~%d~%d~%s", i, lon, lat, ver, r.Intn(3), c17TsClass(r), tags))
 	}
 	nw := r.Intn(5)
 	for i := 1; i <= nw; i++ {
@@ -832,7 +885,7 @@ func c17GenData(r *Rng) (nodes, ways, rels []string) {
 				tags = strings.Join(c17Dedup(strings.Split(tags, ",")), ",")
 			}
 		}
-		ways = append(ways, fmt.Sprintf("%d~%d~%d~%d~%s~%s", 100+i, r.Intn(3), r.Intn(3), r.Intn(2), tags, strings.Join(refs, ",")))
+		ways = append(ways, fmt.Sprintf("%d~%d~%d~%d~%s~%s", 100+i, r.Intn(3), r.Intn(3), c17TsClass(r), tags, strings.Join(refs, ",")))
 	}
 	nr := r.Intn(4)
 	for i := 1; i <= nr; i++ {
@@ -862,7 +915,7 @@ func c17GenData(r *Rng) (nodes, ways, rels []string) {
 		if len(ms) > 0 {
 			mstr = strings.Join(ms, ";")
 		}
-		rels = append(rels, fmt.Sprintf("%d~%d~%d~%d~%s~%s", 200+i, r.Intn(3), r.Intn(3), r.Intn(2), tags, mstr))
+		rels = append(rels, fmt.Sprintf("%d~%d~%d~%d~%s~%s", 200+i, r.Intn(3), r.Intn(3), c17TsClass(r), tags, mstr))
 	}
 	return
 }
